@@ -1,4 +1,5 @@
 import GrinVerif.Lemmas.ChainBisim
+import GrinVerif.Lemmas.ChainSim
 import GrinVerif.Lemmas.ChainExampleFacts
 /-! # C06 — rejected or losing-fork input leaves best-chain state untouched
 (theorems on `Model/Chain.lean`; `KnownFull`, `hdrUpdate` in `Lemmas/ChainStep.lean`, `StoreInv`
@@ -144,6 +145,50 @@ theorem reject_then_step (p : Params) (n : Node) (r b : Blk) (e : Err)
   exact same_core_same_step p _ n b hc (by rw [blk_congr hd.1]; exact hb)
     ((parts_storeInv p).toPreserved.single n r hr hi) hi hp
 
+/-- (b) **Bisimulation along runs.** After a rejected block (any validation failure, or an unknown
+parent header; the one excluded case is a block parked in the orphan pool, which is not a
+rejection but a postponement: its parent is neither stored nor header-unknown), the node and a twin
+that never saw the block show the same best-chain observation — head, stored blocks, reported
+unspent set — after every further history of deliveries (blocks and headers, any order, orphan
+pool included). The node that remembered the rejected block's header may additionally pool that
+block's descendants where the twin refuses them (`StoreErr`): those can never be stored
+(`Sim`, `LiveOK` in `Lemmas/ChainSim.lean` make this precise), so nothing observable differs. -/
+theorem reject_bisim (p : Params) (n : Node) (r : Blk) (e : Err) (hi : Inv p n)
+    (hg : ∀ g, n.blk 0 = some g → g.parent = none) (hr : n.blk r.id = some r)
+    (hrej : (processBlockSingle p n r).2 = .err e)
+    (hpar : ∀ par, r.parent = some par → par ∈ n.stored ∨ par ∉ n.headers)
+    (es : List Event) (hreg : Registered n es) :
+    obsBest p (run p (processBlockSingle p n r).1 es) = obsBest p (run p n es) :=
+  GV.Chain.reject_bisim p n r e hi hg hr hrej hpar es hreg
+
+/-- (b) … and every further *block delivery result* is the same on both, for every block that is
+valid on its own path (results for never-storable blocks may differ in the error class only:
+`Orphan` against `StoreErr`). -/
+theorem reject_bisim_results (p : Params) (n : Node) (r : Blk) (e : Err) (hi : Inv p n)
+    (hg : ∀ g, n.blk 0 = some g → g.parent = none) (hr : n.blk r.id = some r)
+    (hrej : (processBlockSingle p n r).2 = .err e)
+    (hpar : ∀ par, r.parent = some par → par ∈ n.stored ∨ par ∉ n.headers)
+    (es : List Event) (hreg : Registered n es) (b : Blk) (hb : n.blk b.id = some b)
+    (hv : VOP p n b.id) :
+    (deliverBlock p (run p (processBlockSingle p n r).1 es) b).2 =
+      (deliverBlock p (run p n es) b).2 := by
+  have hs := reject_sim p n r e hi hr hrej hpar
+  have hd := processBlockSingle_defs p n r
+  have hreg' : Registered (processBlockSingle p n r).1 es := by
+    intro ev hev
+    rw [blk_congr hd.1]
+    exact hreg ev hev
+  have hl := liveVOP_ok p n hg
+  have hrun := run_sim hl es _ _ hs hreg'
+  have hb' : (run p (processBlockSingle p n r).1 es).blk b.id = some b := by
+    rw [blk_congr (run_defs p _ es).1, blk_congr hd.1]; exact hb
+  exact (deliverBlock_sim hl hrun b hb').2 (by simpa [liveVOP] using hv)
+
+/-- The invariant `Inv` assumed above holds after every history from a fresh node. -/
+theorem inv_after_run (p : Params) (n : Node) (es : List Event) (hf : Fresh n)
+    (hreg : Registered n es) : Inv p (run p n es) :=
+  run_preserved (preserved_inv p) n es hreg (hf.inv p)
+
 /-! ## non-vacuity: the hypotheses hold on the concrete tree of `Lemmas/ChainExamples.lean`
 (0 ── 1 ── 3 ── 4, sibling 2 of 1, invalid child 9 of 1; 3 spends the genesis output 100 and
 4 re-creates that commitment) -/
@@ -187,6 +232,32 @@ example :
         rw [h] at hpar; exact (Option.some.inj hpar).symm
       subst this
       decide)).2
+
+-- `reject_bisim`: hypotheses hold for the rejected block 9 after block 1; the histories continue
+-- with 9's sibling 3, a header and block 4
+example : obsBest P (run P (processBlockSingle P (run P N [.block B1]) B9).1 [.block B3, .header B4, .block B4]) =
+    obsBest P (run P (run P N [.block B1]) [.block B3, .header B4, .block B4]) :=
+  reject_bisim P (run P N [.block B1]) B9 "AlreadySpent"
+    (inv_after_run P N _ ex_fresh (by
+      intro e he
+      simp only [List.mem_cons, List.not_mem_nil, or_false] at he
+      rcases he with rfl <;> rfl))
+    (by
+      intro g hg
+      have h : (run P N [.block B1]).blk 0 = some G := rfl
+      rw [h] at hg
+      rw [← Option.some.inj hg]; rfl)
+    rfl (by decide)
+    (by
+      intro par hpar
+      have h : B9.parent = some 1 := rfl
+      rw [h] at hpar
+      rw [← Option.some.inj hpar]
+      left; decide)
+    _ (by
+      intro e he
+      simp only [List.mem_cons, List.not_mem_nil, or_false] at he
+      rcases he with rfl | rfl | rfl <;> rfl)
 
 end Examples
 end GV.Props.C06
